@@ -1,2 +1,199 @@
 import Dbg.Model.Export
-import Dbg.Model.CompressGraph
+import Dbg.Spec.C01
+/-! # C18 — Node k-mer iteration obeys the iterator contract
+
+`NIter` (Model/Export.lean) is the model of `NodeKmerIter` after the repair of D3.  It is proved to be simulated by
+a cursor into the list of the node's k-mers, for every node and every finite sequence of `next()` / `nth(n)`
+calls (any `n`, on both sides of the short-skip threshold and of the remaining count). -/
+namespace Export
+open Compress (Seq Base extendRight windowsOf)
+
+/-- the `i`-th k-mer of a node sequence -/
+def win (K : Nat) (s : Seq) (i : Nat) : Seq := (s.drop i).take K
+
+theorem windowsOf_length (K : Nat) (s : Seq) (h : K ≤ s.length) : (windowsOf K s).length = s.length + 1 - K := by
+  unfold windowsOf; simp [show ¬ s.length < K by omega]; omega
+
+theorem windowsOf_get (K : Nat) (s : Seq) (i : Nat) (h : K ≤ s.length) (hi : i < s.length + 1 - K) :
+    (windowsOf K s)[i]? = some (win K s i) := by
+  unfold windowsOf win
+  simp only [show ¬ s.length < K by omega, if_false]
+  rw [List.getElem?_map, List.getElem?_range (by omega)]; rfl
+
+theorem windowsOf_get_none (K : Nat) (s : Seq) (i : Nat) (h : K ≤ s.length) (hi : s.length + 1 - K ≤ i) :
+    (windowsOf K s)[i]? = none := by
+  apply List.getElem?_eq_none; rw [windowsOf_length K s h]; exact hi
+
+/-- sliding the window by one base is `extend_right` -/
+theorem win_succ (K : Nat) (s : Seq) (i : Nat) (hK : 1 ≤ K) (h : i + K < s.length) (b : Base) (hb : s[i + K]? = some b) :
+    extendRight (win K s i) b = win K s (i + 1) := by
+  unfold extendRight win
+  apply List.ext_getElem
+  · simp; omega
+  · intro j h1 h2
+    simp only [List.length_take, List.length_drop] at h2
+    by_cases hj : j < K - 1
+    · rw [List.getElem_append_left (by simp; omega)]
+      simp only [List.getElem_tail, List.getElem_take, List.getElem_drop]
+      congr 1; omega
+    · have hj' : j = K - 1 := by simp at h1; omega
+      subst hj'
+      rw [List.getElem_append_right (by simp; omega)]
+      simp only [List.getElem_take, List.getElem_drop]
+      have : s[i + K]? = some s[i + 1 + (K - 1)] := by
+        rw [List.getElem?_eq_getElem (by omega)]; congr 2; omega
+      rw [hb] at this
+      simp at this ⊢
+      exact this
+
+/-- simulation invariant between the iterator state and a cursor `i` -/
+structure Sim (K : Nat) (s : Seq) (it : NIter) (i : Nat) : Prop where
+  hK : it.K = K
+  hs : it.seq = s
+  hn : it.numKmers = s.length + 1 - K
+  hi : it.kmerId = i
+  hle : i ≤ s.length + 1 - K
+  hk : i < s.length + 1 - K → it.kmer = win K s i
+
+theorem start_sim (K : Nat) (s : Seq) (h : K ≤ s.length) :
+    ∃ it, NIter.start K s = some it ∧ Sim K s it 0 := by
+  unfold NIter.start
+  simp only [show ¬ s.length + 1 < K by omega, if_false]
+  refine ⟨_, rfl, rfl, rfl, rfl, rfl, by omega, ?_⟩
+  intro h0; simp [h0, win]
+
+/-- `next()` answers `L[i]?` and advances the cursor by one (capped) -/
+theorem next_sim (K : Nat) (s : Seq) (hK : 1 ≤ K) (h : K ≤ s.length) (it : NIter) (i : Nat) (hs : Sim K s it i) :
+    (it.next).2 = (windowsOf K s)[i]? ∧ Sim K s (it.next).1 (min (i + 1) (s.length + 1 - K)) := by
+  obtain ⟨sK, ss, sn, si, sle, sk⟩ := hs
+  unfold NIter.next
+  by_cases he : it.numKmers = it.kmerId
+  · have : i = s.length + 1 - K := by omega
+    simp only [he, if_true]
+    refine ⟨(windowsOf_get_none K s i h (by omega)).symm, sK, ss, sn, by omega, by omega, fun hh => absurd hh (by omega)⟩
+  · have hlt : i < s.length + 1 - K := by omega
+    simp only [he, if_false]
+    refine ⟨by rw [windowsOf_get K s i h hlt, sk hlt], sK, ss, sn, by simp only [si]; omega, by omega, ?_⟩
+    intro h2
+    have h3 : i + 1 < s.length + 1 - K := by omega
+    have e1 : min (i + 1) (s.length + 1 - K) = i + 1 := by omega
+    rw [e1]
+    simp only [si, sn, h3, if_true, sK, ss]
+    have hidx : i + 1 + K - 1 = i + K := by omega
+    rw [hidx]
+    have hb : i + K < s.length := by omega
+    rw [List.getElem?_eq_getElem hb]
+    simp only
+    rw [sk hlt]
+    exact win_succ K s i hK hb _ (List.getElem?_eq_getElem hb)
+
+/-- `j` single steps move the cursor by `j` (capped) -/
+theorem steps_sim (K : Nat) (s : Seq) (hK : 1 ≤ K) (h : K ≤ s.length) :
+    ∀ (j : Nat) (it : NIter) (i : Nat), Sim K s it i →
+      Sim K s ((List.range j).foldl (fun (x : NIter) _ => x.next.1) it) (min (i + j) (s.length + 1 - K)) := by
+  intro j
+  induction j with
+  | zero => intro it i hs; have := hs.hle; simpa [show min i (s.length + 1 - K) = i by omega] using hs
+  | succ j ih =>
+    intro it i hs
+    rw [List.range_succ, List.foldl_append]
+    simp only [List.foldl_cons, List.foldl_nil]
+    have h1 := ih it i hs
+    have h2 := (next_sim K s hK h _ _ h1).2
+    have e : min (min (i + j) (s.length + 1 - K) + 1) (s.length + 1 - K) = min (i + (j + 1)) (s.length + 1 - K) := by omega
+    rw [e] at h2; exact h2
+
+/-- `nth(n)` answers `L[i+n]?` and moves the cursor to `i+n+1` (capped), whichever branch is taken -/
+theorem nth_sim (K : Nat) (s : Seq) (hK : 1 ≤ K) (h : K ≤ s.length) (it : NIter) (i n : Nat) (hs : Sim K s it i) :
+    (it.nth n).2 = (windowsOf K s)[i + n]? ∧ Sim K s (it.nth n).1 (min (i + n + 1) (s.length + 1 - K)) := by
+  unfold NIter.nth
+  by_cases hshort : n ≤ Gen.nodeIterSkipThreshold
+  · simp only [hshort, if_true]
+    have h1 := steps_sim K s hK h n it i hs
+    obtain ⟨a, b⟩ := next_sim K s hK h _ _ h1
+    refine ⟨?_, ?_⟩
+    · rw [a]
+      by_cases hc : i + n < s.length + 1 - K
+      · rw [show min (i + n) (s.length + 1 - K) = i + n by omega]
+      · rw [windowsOf_get_none K s _ h (by omega), windowsOf_get_none K s _ h (by omega)]
+    · have e : min (min (i + n) (s.length + 1 - K) + 1) (s.length + 1 - K) = min (i + n + 1) (s.length + 1 - K) := by omega
+      rw [e] at b; exact b
+  · simp only [hshort, if_false]
+    obtain ⟨sK, ss, sn, si, sle, sk⟩ := hs
+    by_cases hpast : n ≥ it.numKmers - it.kmerId
+    · simp only [hpast, if_true]
+      refine ⟨(windowsOf_get_none K s _ h (by omega)).symm, sK, ss, sn, by simp only [sn]; omega, by omega, fun hh => absurd hh (by omega)⟩
+    · simp only [hpast, if_false]
+      have hlt : i + n < s.length + 1 - K := by omega
+      have hs' : Sim K s { it with kmerId := it.kmerId + n, kmer := (it.seq.drop (it.kmerId + n)).take it.K } (i + n) :=
+        ⟨sK, ss, sn, by simp only [si], by omega, fun _ => by simp only [ss, sK, si, win]⟩
+      exact next_sim K s hK h _ _ hs'
+
+inductive Call | next | nth (n : Nat)
+
+def runCall (it : NIter) : Call → NIter × Option Seq
+  | .next => it.next
+  | .nth n => it.nth n
+
+/-- the specification: a cursor into the list `L` of the node's k-mers -/
+def specCall (L : List Seq) (i : Nat) : Call → Nat × Option Seq
+  | .next => (min (i + 1) L.length, L[i]?)
+  | .nth n => (min (i + n + 1) L.length, L[i + n]?)
+
+def answers (it : NIter) : List Call → List (Option Seq)
+  | [] => []
+  | c :: cs => (runCall it c).2 :: answers (runCall it c).1 cs
+
+def specAnswers (L : List Seq) (i : Nat) : List Call → List (Option Seq)
+  | [] => []
+  | c :: cs => (specCall L i c).2 :: specAnswers L (specCall L i c).1 cs
+
+theorem answers_sim (K : Nat) (s : Seq) (hK : 1 ≤ K) (h : K ≤ s.length) (calls : List Call) :
+    ∀ (it : NIter) (i : Nat), Sim K s it i → answers it calls = specAnswers (windowsOf K s) i calls := by
+  induction calls with
+  | nil => intros; rfl
+  | cons c cs ih =>
+    intro it i hs
+    have hl := windowsOf_length K s h
+    cases c with
+    | next =>
+      obtain ⟨a, b⟩ := next_sim K s hK h it i hs
+      simp only [answers, specAnswers, runCall, specCall, a, hl]
+      rw [ih _ _ b]
+    | nth n =>
+      obtain ⟨a, b⟩ := nth_sim K s hK h it i n hs
+      simp only [answers, specAnswers, runCall, specCall, a, hl]
+      rw [ih _ _ b]
+
+/-- **C18 (contract).** For every node (length ≥ K ≥ 1) and every finite sequence of `next()` / `nth(n)` calls the
+    iterator answers exactly like a cursor into the list of the node's `n-K+1` k-mers: the k-mers in order, and
+    end-of-iteration — never another node's k-mer, a panic or an endless stream — once a step or skip reaches past
+    the last one. -/
+theorem C18_refines (K : Nat) (s : Seq) (hK : 1 ≤ K) (h : K ≤ s.length) (calls : List Call) :
+    ∃ it, NIter.start K s = some it ∧ answers it calls = specAnswers (windowsOf K s) 0 calls := by
+  obtain ⟨it, e, hs⟩ := start_sim K s h
+  exact ⟨it, e, answers_sim K s hK h calls it 0 hs⟩
+
+/-- **C18 (count up front).** A fresh iterator reports exactly the number of k-mers of the node. -/
+theorem C18_len_upfront (K : Nat) (s : Seq) (h : K ≤ s.length) :
+    ∃ it, NIter.start K s = some it ∧ it.sizeHint = ((windowsOf K s).length, some (windowsOf K s).length) := by
+  obtain ⟨it, e, hs⟩ := start_sim K s h
+  exact ⟨it, e, by simp [NIter.sizeHint, hs.hn, windowsOf_length K s h]⟩
+
+/-- once the end is reached every further call answers end-of-iteration -/
+theorem C18_end_is_sticky (L : List Seq) (i : Nat) (hi : L.length ≤ i) (calls : List Call) :
+    ∀ o ∈ specAnswers L i calls, o = none := by
+  induction calls generalizing i with
+  | nil => intro o ho; simp [specAnswers] at ho
+  | cons c cs ih =>
+    intro o ho
+    simp only [specAnswers, List.mem_cons] at ho
+    rcases ho with rfl | ho
+    · cases c <;> simp [specCall] <;> omega
+    · apply ih _ _ o ho
+      cases c <;> simp [specCall] <;> omega
+
+example : ∃ it, NIter.start 3 [0,1,2,3,0] = some it ∧
+    answers it [.nth 6, .next, .next] = [none, none, none] := ⟨_, rfl, by decide⟩
+
+end Export
